@@ -478,6 +478,27 @@ def write_shapes_set(dsdl_dir):
     return roots, dsdlgen.read_all(dsdl_dir, roots), 0
 
 
+INTONLY_SET = {
+    # no floating point anywhere: the only kind of input omit_float_serialization_support is meant for, with every integer width in
+    # scalars, fixed and variable-length arrays, unions and services
+    "intq/Scalars.1.0.dsdl": "uint8 a\nint16 b\nuint32 c\nint64 d\nuint7 e\nint33 f\nbool g\nvoid5\ntruncated uint24 h\n@sealed\n",
+    "intq/Fixed.1.0.dsdl": "uint8[3] a\nint16[2] b\nuint32[2] c\nint64[2] d\nbool[9] e\nuint5[3] f\n@sealed\n",
+    "intq/Variable.1.0.dsdl": "uint8[<=3] a\nint16[<=300] b\nuint32[<=2] c\nint64[<=2] d\nbool[<=9] e\nuint13[<=3] f\nuint16[<=2] g\nbyte[<=4] h\nutf8[<=4] i\n@extent 1024 * 8\n",
+    "intq/Un.1.0.dsdl": "@union\nuint8 a\nint32[<=4] b\nintq.Scalars.1.0 c\nuint64[2] d\n@sealed\n",
+    "intq/10.Svc.1.0.dsdl": "uint16[<=5] q\nintq.Un.1.0 u\n@sealed\n---\nint64[<=2] r\nintq.Variable.1.0 v\n@sealed\n",
+    "intq/Consts.1.0.dsdl": "uint8 A = 1\nint64 B = -5\nbool C = true\nuint16 v\n@sealed\n",
+}
+
+
+def write_intonly_set(dsdl_dir):
+    for rel, text in INTONLY_SET.items():
+        os.makedirs(os.path.dirname(os.path.join(dsdl_dir, rel)), exist_ok=True)
+        with open(os.path.join(dsdl_dir, rel), "w") as f:
+            f.write(text)
+    roots = ["intq"]
+    return roots, dsdlgen.read_all(dsdl_dir, roots), 0
+
+
 def write_prefix_set(dsdl_dir):
     for rel, text in PREFIX_SET.items():
         os.makedirs(os.path.dirname(os.path.join(dsdl_dir, rel)), exist_ok=True)
@@ -495,6 +516,8 @@ def one_set(ctx, idx, cflags, cxxflags):
         roots, parsed, rejected = write_prefix_set(dsdl_dir)
     elif idx == "shapes":
         roots, parsed, rejected = write_shapes_set(dsdl_dir)
+    elif idx == "intonly":
+        roots, parsed, rejected = write_intonly_set(dsdl_dir)
     elif idx == "corpus":
         roots = dsdlgen.write_corpus(dsdl_dir)
         parsed, rejected = dsdlgen.read_all(dsdl_dir, roots), 0
@@ -503,7 +526,7 @@ def one_set(ctx, idx, cflags, cxxflags):
     ctx.count("drafts_rejected_by_frontend", rejected)
     alltypes = [t for r in roots for t in parsed[r]]
     witness = dict(set=idx, seed=ctx.seed, roots=roots)
-    if idx in ("prefix", "shapes", "corpus") or idx % 2 == 0:
+    if idx in ("prefix", "shapes", "corpus", "intonly") or idx % 2 == 0:
         inprocess_generation_with_contract(ctx, dsdl_dir, roots, parsed, d)
     configs = []
     for omit in (False, True):
@@ -516,7 +539,7 @@ def one_set(ctx, idx, cflags, cxxflags):
         configs.append(("py", [], omit))
     if ctx.quick and idx != "shapes":
         configs = [c for c in configs if not c[2]] + R.sample([c for c in configs if c[2]], 2)
-    configs = [c + ("", [], []) for c in configs]
+    configs = [c + ("", [], []) for c in configs] if idx != "intonly" else []
     # language option variants (C and C++): the armed serialization asserts are compiled as real assert()s
     variants = [("asserts", ["--enable-serialization-asserts"], ["-DNUNAVUT_ASSERT=assert", "-include", "assert.h"]),
                 ("little", ["--target-endianness", "little"], []), ("big", ["--target-endianness", "big"], []),
@@ -535,7 +558,15 @@ def one_set(ctx, idx, cflags, cxxflags):
         return False
     if any(uses_float(t) for t in alltypes):
         variants = [v for v in variants if v[0] != "nofloat"]
-    if ctx.quick and idx not in ("shapes", "prefix", "corpus"):
+    if idx == "intonly":
+        # the float-free set under the float-free option, combined with the other options (pairs of options meet here)
+        nf = ["--omit-float-serialization-support"]
+        variants = [("nofloat", nf, []), ("nofloat_little", nf + ["--target-endianness", "little"], []), ("nofloat_big", nf + ["--target-endianness", "big"], []),
+                    ("nofloat_little_asserts", nf + ["--target-endianness", "little", "--enable-serialization-asserts"], ["-DNUNAVUT_ASSERT=assert", "-include", "assert.h"]),
+                    ("nofloat_ovr", nf + ["--enable-override-variable-array-capacity"], []),
+                    ("little_ovr_asserts", ["--target-endianness", "little", "--enable-override-variable-array-capacity", "--enable-serialization-asserts"],
+                     ["-DNUNAVUT_ASSERT=assert", "-include", "assert.h"])]
+    elif ctx.quick and idx not in ("shapes", "prefix", "corpus"):
         variants = [variants[idx % len(variants)], variants[(idx + 2) % len(variants)]]
     for vi, (vname, vflags, ccflags) in enumerate(variants):
         configs.append(("c", [], False, vname, vflags, ccflags))
@@ -555,15 +586,27 @@ def one_set(ctx, idx, cflags, cxxflags):
                     yaml.safe_dump({"nunavut.lang." + lang_: body}, f)
                 configs.append((lang_, flags_, False, "cfg_" + cname, ["--configuration", cp], []))
     jobs, meta = [], {}
-    for lang, flags, omit, vname, vflags, ccflags in configs:
-        tag = "%s_%s_%s%s" % (lang, "".join(flags[1:]).replace("+", "p") or "default", "omit" if omit else "ser", "_" + vname if vname else "")
-        out = os.path.join(d, "out_" + tag)
+    def tag_of(cfg):
+        lang, flags, omit, vname = cfg[:4]
+        return "%s_%s_%s%s" % (lang, "".join(flags[1:]).replace("+", "p") or "default", "omit" if omit else "ser", "_" + vname if vname else "")
+
+    def generate(cfg):
+        lang, flags, omit, vname, vflags, ccflags = cfg
+        out = os.path.join(d, "out_" + tag_of(cfg))
+        pre = False
         if vname and lang in ("c", "cpp"):
             # the output directory already holds what the same command line without the option made (a user who switches an option on
             # regenerates in place): what the directory holds afterwards must build like a fresh generation
             genrun.nnvg_all_roots(dsdl_dir, roots, out, lang, extra=flags, cwd=d)
+            pre = True
+        return pre, genrun.nnvg_all_roots(dsdl_dir, roots, out, lang, extra=flags + vflags + (["--omit-serialization-support"] if omit else []), cwd=d)
+    with concurrent.futures.ThreadPoolExecutor(8) as ex:      # the generator runs of one set side by side (each is its own process)
+        generated = list(ex.map(generate, configs))
+    for (lang, flags, omit, vname, vflags, ccflags), (pre, rs) in zip(configs, generated):
+        tag = tag_of((lang, flags, omit, vname))
+        out = os.path.join(d, "out_" + tag)
+        if pre:
             ctx.count("generations_over_output_of_other_options")
-        rs = genrun.nnvg_all_roots(dsdl_dir, roots, out, lang, extra=flags + vflags + (["--omit-serialization-support"] if omit else []), cwd=d)
         ctx.count("evaluations")
         ctx.count("generations")
         if vname:
@@ -702,6 +745,7 @@ def run(ctx):
     one_set(ctx, "prefix", cflags, cxxflags)
     one_set(ctx, "shapes", cflags, cxxflags)
     one_set(ctx, "corpus", cflags, cxxflags)
+    one_set(ctx, "intonly", cflags, cxxflags)
     for i in range(ctx.pick(3, 40)):
         one_set(ctx, i, cflags, cxxflags)
     ctx.require("translation_units_clean", 100)
